@@ -4500,6 +4500,22 @@ def _parse_program(src: str) -> Program:
     }
     ctx["vars"]["_helpers"] = ctx["helpers"]
 
+    # Python resolves a helper's name when the call runs, so a helper may call one
+    # that is defined further down: make every top-level definition known before
+    # the first body is translated (argument and result types of such a call
+    # then come from the callee, as for a helper defined above its caller)
+    i = 0
+    while i < len(lines):
+        if _indent_of(lines[i]) == 0:
+            m_def = RE_DEF.match(_strip_inline_comment(lines[i]).strip())
+            if m_def:
+                block, i = _collect_block(lines, i)
+                ctx["function_sources"].setdefault(
+                    m_def.group(1), (m_def.group(2), list(block))
+                )
+                continue
+        i += 1
+
     i = 0
     while i < len(lines):
         raw = lines[i]
